@@ -156,15 +156,46 @@ func runC41(c *core.Ctx) {
 					}
 				}
 			}
-			c.Floor("writes to EndorseSigs in addBlockEndorsementLocked", len(updates), 3)
+			c.Floor("writes to EndorseSigs in addBlockEndorsementLocked", len(updates), 2)
 			if existing == nil {
 				c.Broken("C41.insert", fn, "existing := EndorseSigs[endorser]", c.P.Rel(fn.Pos()), "lookup not found")
 			} else {
 				loops := eng.FindSliceLoops(fn, func(v ssa.Value) bool { return v == existing })
+				// a scan over the participant's existing entries: a loop in the function, or a same-package
+				// predicate helper handed the list that answers true on the first hit and false at the end
 				type scan struct {
-					lp   eng.SliceLoop
-					kind string
-					hit  ir.Edge
+					kind  string
+					hitTo *ssa.BasicBlock // block of fn entered on a hit
+					head  *ssa.BasicBlock // loop header in fn (nil for helper scans)
+					exit  ir.Guard        // passes when the scan completed without a hit
+					pos   token.Pos
+				}
+				isElemOf := func(list func(ssa.Value) bool) func(ssa.Value) bool {
+					return func(v ssa.Value) bool {
+						ld, ok := ir.Strip(v).(*ssa.UnOp)
+						if !ok {
+							return false
+						}
+						ia, ok := ld.X.(*ssa.IndexAddr)
+						return ok && list(ia.X)
+					}
+				}
+				isExisting := func(v ssa.Value) bool { return v == existing || ir.Resolve(v) == existing }
+				kindOf := func(cond ssa.Value) string {
+					isElem := isElemOf(isExisting)
+					if isFieldOf("ForEmpty", isElem)(cond) {
+						return "empty-scan"
+					}
+					if b, ok := cond.(*ssa.BinOp); ok && b.Op == token.EQL {
+						ofParam := func(v ssa.Value) bool {
+							return isFieldOf("EndorsedProposer", func(x ssa.Value) bool { return ir.Strip(x) == ssa.Value(sigP) })(ir.Resolve(v))
+						}
+						ofElem := isFieldOf("EndorsedProposer", isElem)
+						if (ofElem(b.X) && ofParam(b.Y)) || (ofElem(b.Y) && ofParam(b.X)) {
+							return "dup-scan"
+						}
+					}
+					return "other"
 				}
 				var scans []scan
 				for _, lp := range loops {
@@ -172,30 +203,57 @@ func runC41(c *core.Ctx) {
 					if !ok {
 						continue
 					}
-					isElem := func(v ssa.Value) bool {
-						ld, ok := ir.Strip(v).(*ssa.UnOp)
-						if !ok {
-							return false
-						}
-						ia, ok := ld.X.(*ssa.IndexAddr)
-						return ok && ia.X == existing
+					lpc := lp
+					scans = append(scans, scan{kindOf(iff.Cond), lp.Body.Succs[0], lp.Header,
+						func(cd ir.Cond) (bool, bool) { return cd.If == lpc.Cond, false }, lp.Cond.Pos()})
+				}
+				for _, cd := range ir.Conds(fn) {
+					cl, isCl := cd.V.(*ssa.Call)
+					if !isCl {
+						continue
 					}
+					h := cl.Common().StaticCallee()
+					if h == nil || h.Pkg != fn.Pkg || len(h.Blocks) == 0 || h.Signature.Results().Len() != 1 || len(cl.Common().Args) == 0 || !isExisting(cl.Common().Args[0]) {
+						continue
+					}
+					unbind := ir.BindParams(h, cl.Common().Args)
+					hl := eng.FindSliceLoops(h, isExisting)
 					kind := "other"
-					if isFieldOf("ForEmpty", isElem)(iff.Cond) {
-						kind = "empty-scan"
-					}
-					if b, ok := iff.Cond.(*ssa.BinOp); ok && b.Op == token.EQL {
-						ofParam := isFieldOf("EndorsedProposer", func(v ssa.Value) bool { return ir.Strip(v) == ssa.Value(sigP) })
-						ofElem := isFieldOf("EndorsedProposer", isElem)
-						if (ofElem(b.X) && ofParam(b.Y)) || (ofElem(b.Y) && ofParam(b.X)) {
-							kind = "dup-scan"
+					okShape := false
+					if len(hl) == 1 {
+						if iff, ok := hl[0].Body.Instrs[len(hl[0].Body.Instrs)-1].(*ssa.If); ok {
+							kind = kindOf(iff.Cond)
+							// a hit answers true (and stops), the end of the scan answers false
+							r := ir.NewReach(h)
+							r.RunFromBlock(hl[0].Body.Succs[0])
+							okShape = !r.BlockEntered(hl[0].Header)
+							for _, fs := range ir.BoolReturnSinks(h, 0, false) {
+								if r.SinkReachable(fs) {
+									okShape = false
+								}
+							}
+							lpc := hl[0]
+							r2 := ir.NewReach(h).CutEdges([]ir.Edge{{From: lpc.Header, Idx: 1 - indexOfSucc(lpc.Header, lpc.Body)}}).Run(nil)
+							for _, fs := range ir.BoolReturnSinks(h, 0, false) {
+								if r2.SinkReachable(fs) {
+									okShape = false // "false" without having scanned the whole list
+								}
+							}
 						}
 					}
-					scans = append(scans, scan{lp, kind, ir.Edge{From: lp.Body, Idx: 0}})
+					unbind()
+					if kind == "other" {
+						continue
+					}
+					c.Touch(h)
+					c.Decide(okShape, "C41.insert", fn, kind+" helper "+h.Name()+": true exactly on a hit, false only after the whole list was scanned", c.P.Rel(cl.Pos()), "")
+					call := cl
+					scans = append(scans, scan{kind, cd.If.Block().Succs[cd.TrueIdx()], nil,
+						func(c2 ir.Cond) (bool, bool) { return c2.V == ssa.Value(call), false }, cl.Pos()})
 				}
 				nEmpty, nDup := 0, 0
-				for _, s := range scans {
-					switch s.kind {
+				for _, sc := range scans {
+					switch sc.kind {
 					case "empty-scan":
 						nEmpty++
 					case "dup-scan":
@@ -205,25 +263,27 @@ func runC41(c *core.Ctx) {
 					}
 					// from the hit edge no write is reachable
 					r := ir.NewReach(fn)
-					r.RunFromBlock(s.hit.To())
-					clean := !r.BlockEntered(s.lp.Header)
+					r.RunFromBlock(sc.hitTo)
+					clean := sc.head == nil || !r.BlockEntered(sc.head)
 					for _, u := range updates {
 						if r.Instr(u) {
 							clean = false
 						}
 					}
 					what := "an existing empty vote freezes the participant: no write and no further scanning from the hit"
-					if s.kind == "dup-scan" {
+					if sc.kind == "dup-scan" {
 						what = "an existing vote for the same proposer suppresses the new one: no write from the hit"
 					}
-					c.Decide(clean, "C41.insert", fn, s.kind+": "+what, c.P.Rel(s.lp.Cond.Pos()), "")
+					c.Decide(clean, "C41.insert", fn, sc.kind+": "+what, c.P.Rel(sc.pos), "")
 				}
 				c.Decide(nEmpty == 1 && nDup == 1, "C41.insert", fn, "one scan for an earlier empty vote (testing ForEmpty alone) and one scan for the same proposer", c.P.Rel(fn.Pos()), sprintf("%d empty-scan(s), %d dup-scan(s), %d loop(s) over the existing entries", nEmpty, nDup, len(loops)))
 				exitOf := func(kind string) ir.Guard {
 					return func(cd ir.Cond) (bool, bool) {
-						for _, s := range scans {
-							if s.kind == kind && cd.If == s.lp.Cond {
-								return true, false
+						for _, sc := range scans {
+							if sc.kind == kind {
+								if ok, pt := sc.exit(cd); ok {
+									return ok, pt
+								}
 							}
 						}
 						return false, false
